@@ -272,3 +272,23 @@ PROPS["C13"]["shard"] = {"wtmo": 16}
 PROPS["C12"]["kinds"] = PROPS["C12"]["kinds"] + ["c11"]
 PROPS["C17"]["kinds"] = PROPS["C17"]["kinds"] + ["tmo"]
 PROPS["C13"]["kinds"] = PROPS["C13"]["kinds"] + ["tmo"]
+
+# generator dimensions added after the L and M series of seeded changes (DESIGN.md section 15)
+_LM = {
+ "C02": " c02 also (M): unread messages whose over-long paragraph (line limits 60 and 2000) is a raw read of its own between '...CRLF' and '.CRLF<bait commands>'.",
+ "C04": " c19/c05 also (M): BDAT chunks of 70 000 and 200 000 octets full of command look-alikes whose backend gives up after 0, 3 or 40 000 octets; the reply sequence is stated for C04 as well.",
+ "C05": " c05 also (M): BDAT chunks of 70 000 and 200 000 octets whose backend gives up early; tmo control bdat-*-pipelined-slow (six pipelined chunks, segments 450 ms apart against a 1.6 s time-out).",
+ "C06": " c06 also (M): backends that read exactly the message size, and one octet fewer, under limits N and N+1.",
+ "C08": " c08 also (M): Server.Close called while the n-th reply with a given code is being written (354 with the message buffered behind; the replies to MAIL and RCPT).",
+ "C09": " c09 also (M): continuation answers that spell a command (QUIT, quit, RSET); seven challenges against nine answers (coprime rotation).",
+ "C12": " c12 also (L, M): the TLS configuration rotates between Certificates, GetCertificate and GetConfigForClient; every third configuration sends a refused greeting after the accepted one.",
+ "C13": " tmo LMTP cases are judged for C13 (L): the replies the client RECEIVED; an LMTP handler that hangs after the message was handed over is a C13 violation (M).",
+ "C16": " trip also (L, M): backends that refuse an 8 kB message after reading 0 or 3 octets (a partial read must be a prefix); Client.DebugWriter set in every other trip; a call that never returns has both pipe ends closed after 30 s.",
+ "C18": " cli also (L): DATA refused with 451/554 although recipients were accepted, then Data() again with and without a further Rcpt.",
+ "C19": " c19 also (M): hostile values (C0/C1 controls raw, broken and overlong UTF-8, surrogates and huge code points in \\x{} form, signs and overflows) for every MAIL/RCPT parameter in an open transaction on a server with every extension enabled; chunks of 70 000 and 200 000 octets refused early.",
+ "C01": " conversations of the 'timeouts' third also run with Server.Debug set (L).",
+ "C15": " cli also (M): the body cases run as LMTP clients too.",
+ "C07": " the recording backend classifies read errors with errors.Is (M): an error wrapping io.EOF counts as EOF.",
+}
+for _p, _t in _LM.items():
+    PROPS[_p]["rule"] = PROPS[_p]["rule"] + _t
